@@ -1166,19 +1166,22 @@ def stale_cuts(stmts):
     rf.add(..) on it: the later subroutine must see the value the earlier one computed, although
     the M registers are handed out afresh (outside Sdk.Lower: what is compiled depends on an
     earlier run; covered by the behavioural oracle only)"""
-    info, targets = [], []
+    info, targets, news = [], [], []
     for s in stmts:
         d, u, t = set(), set(), set()
         reg_defs_uses(s, d, u)
         reg_targets(s, t)
         info.append(({x for x in d if not isinstance(x, tuple)}, {x for x in u if not isinstance(x, tuple)} - t))
-        targets.append(t)
+        # rf.add on a new_register future is returned to the host only by the block that claimed it
+        targets.append(t | {x for x in u if isinstance(x, tuple)})
+        news.append({x for x in d if isinstance(x, tuple)})
     ok = []
     for i in range(len(stmts) - 1):
         defined = set().union(*[d for d, _ in info[: i + 1]])
         used_later = set().union(*[u for _, u in info[i + 1:]])
         added_later = set().union(*targets[i + 1:])
-        if (defined & used_later) and not (defined & added_later):
+        new_defined = set().union(*news[: i + 1])
+        if (defined & used_later) and not ((defined | new_defined) & added_later):
             ok.append(i)
     return ok
 
